@@ -602,9 +602,13 @@ def run(tier, r):
             "stats": stats, "samples": samples}
 
 
-def replay(case):
+def _replay_here(case):
     c = case["case"]
     v, info = {"A": run_case_a, "console": run_case_console, "paint": run_case_paint}[c["part"]](c)
     v = v + info.get("known", [])
     same = [x for x in v if x["what"] == case.get("what")]
-    return {"reproduced": bool(same), "detail": (same or v)[:2]}
+    return {"reproduced": bool(same), "detail": [{k: x[k] for k in x if k != "case"} for x in (same or v)[:2]]}
+
+
+def replay(case):
+    return oc.replay_in_subprocess("c13", case)
